@@ -8,7 +8,7 @@ recomputes I1..I7 from public accessors after every prefix.
 
 MODEL.  Heap split by relationship: io_st (inputs<->uses), po_st (outputs<->producer/index), ng_st (node.graph<->node
 sequence), ow_st (name/owner/flags <-> graph inputs/outputs/initializers + ref counters), nm_st (node names, name
-authority, counters).  step : cfg -> heap -> op -> heap * res unit; the heap returned with Raise is the partially
+authority, counters).  step : cfg -> heap -> op -> heap * res unit (32 ops); the heap returned with Raise is the partially
 mutated state the Python code leaves behind.  cfg : site -> bool says for each of the 12 defect sites whether its
 repair is applied; `current_cfg` (bottom of Model.v) is THE definition to edit when a fix lands; beside every site the
 repaired behaviour is the `c S... = true` branch.  STATE: /repo c5c2382 + dff454e repaired 10 sites (current_cfg = true
@@ -46,6 +46,21 @@ thorough: length 3, 12 % sample) + corpus; ~41 k compared steps, every op kind a
 (evidence: ops / rejections histograms).  After the first op that hits an unrepaired defect site (computed inside
 Coq: `hit`) comparison of that history stops (the state is then outside the domain on which the model is claimed
 faithful; e.g. the `assert value._graph is self._graph` of _maybe_unset_graph is not modelled).
+
+ROUND 2 (seeded changes C01-r2m1, C01-r2m3 escaped; both now caught with concrete replays, seeds 0-3 clean):
+  * plain slices are now IN THE MODEL: ops IOSetSlice k g a b vs / IODelSlice k g a b (non-negative bounds, Python clamping;
+    io_setslice / io_delslice in Model.v, InvD_io_setslice / InvD_io_delslice via InvD_disown_sub + InvD_own_all + a
+    permutation step, frame lemma in C06/Proofs.v); the generator, the rejection shapes and the exhaustive container
+    alphabet (now 69 ops) use them with repeated values on either side ([a] -> [a, a], [a, a] -> [a]) and removals after;
+    gen_slices (oracle stream) adds extended slices, empty slices and del lst[a:b:2]  -> C01-r2m1 (slice assignment
+    releases/takes by membership instead of multiplicity: ref counter drifts) is caught by the correspondence and by I4
+    at the following pop/remove/del/clear.
+  * gen_refused_names: initializers whose const_value is a TensorProtoTensor (serde.deserialize_tensor) renamed to a
+    name the tensor refuses (lone surrogate -> UnicodeEncodeError, non-string -> TypeError), op X_VSetNameRaw
+    -> C01-r2m3 (value renamed before its tensor) is caught by I5 (initializer stored under its old key).
+  * NEW FINDING on the unchanged tree (known_findings.d, key io-setslice-extended-size-mismatch, both properties;
+    proposed_fixes/C01-setslice-extended-size.diff): lst[a:b:step] = items with a wrong number of items moves the
+    ownership of old and new items before list.__setitem__ rejects the size.
 
 READINGS.  "a node names a graph exactly when that graph's node sequence contains it, once" is checked on iteration,
 len() and reversed().  I7 is read on the public `Value.graph` property (falls back to the producer's graph): a value
